@@ -82,11 +82,26 @@ def minimizeAll (s : State) : State :=
     | some i => if (s.objs i).status = .uptodate then setO s i { s.objs i with status := .ghost } else s
     | none => s) s
 
+/-- The storage's `new_oid()` raises at its k-th call during a commit / savepoint.  Seen from outside this is
+    the failure of pickling the object whose serialization makes that call (references of it that got an
+    oid before are disowned again by the writer's clean-up), so the driver finds that object — `recs`: the
+    records of the undisturbed run in store order, `s1` its final state — and lets its pickling fail. -/
+def newoidParent (n : Nat) (s0 s1 : State) (k : Nat) (recs : List (Oid × List ObjId)) : Option ObjId :=
+  let target := s0.nextOid + k
+  if target ≥ s1.nextOid then none
+  else
+    match (List.range n).find? (fun i => (s1.objs i).oid == some target) with
+    | none => none
+    | some x =>
+      match recs.find? (fun p => p.2.contains x) with
+      | none => none
+      | some p => (List.range n).find? (fun i => (s1.objs i).oid == some p.1)
+
 structure DState where
   n : Nat
   s : State
 
-def connStep (d : DState) (toks : List String) : DState × String :=
+def connStep0 (d : DState) (toks : List String) : DState × String :=
   match toks with
   | ["reset", n] =>
     match n.toNat? with
@@ -164,5 +179,41 @@ def connStep (d : DState) (toks : List String) : DState × String :=
       | .peeked none => ({ d with s := s' }, "none | " ++ vector n s')
       | .peeked (some r) =>
         ({ d with s := s' }, "v=" ++ fmtVal r.val r.refs ++ "@" ++ toString r.serial ++ " | " ++ vector n s')
+
+def connStep (d : DState) (toks : List String) : DState × String :=
+  match toks with
+  | ["commitf", "newoid", k] =>
+    match k.toNat? with
+    | none => (d, "bad-op")
+    | some k =>
+      let s0 := d.s
+      let (s1, out1) := step d.n s0 (.commit .none)
+      let parent : Option ObjId :=
+        match out1, s0.sp with
+        | .committed _ oids, none =>
+          newoidParent d.n s0 s1 k (oids.map fun o => (o, match s1.committed.get o with
+                                                          | some r => r.refs
+                                                          | none => []))
+        | _, _ => none
+      connStep0 d (match parent with
+                  | some c => ["commitf", "pickle", toString c]
+                  | none => ["commit"])
+  | ["spf", "newoid", k] =>
+    match k.toNat? with
+    | none => (d, "bad-op")
+    | some k =>
+      let s0 := d.s
+      let (s1, out1) := step d.n s0 .savepoint
+      let p0 := match s0.sp with
+                | some t => t.position
+                | none => 0
+      let parent : Option ObjId :=
+        match out1, s1.sp with
+        | .ok, some t => newoidParent d.n s0 s1 k ((t.entries.drop p0).map fun e => (e.1, e.2.refs))
+        | _, _ => none
+      connStep0 d (match parent with
+                  | some c => ["spf", "pickle", toString c]
+                  | none => ["sp"])
+  | _ => connStep0 d toks
 
 def main : IO Unit := driverLoop connStep ({ n := 0, s := init } : DState)
